@@ -55,7 +55,7 @@ impl Monitor for C18 {
 		"C18"
 	}
 	fn rule(&self) -> String {
-		"C01's replay space (versions/ports writable to .slpp) x compression. Every archive peppi::write produces is parsed by the harness's own tar reader. Oracle: bytes 0..10 are 'peppi.json'; entry names in order = peppi.json, metadata.json, start.json, start.raw, [end.json, end.raw iff the game has an end], [gecko_codes.raw iff gecko codes], frames.arrow last (required when rows > 0; with zero rows either choice is accepted); every *.json entry parses as JSON (own parser) and is byte-equal to serde's rendering of what peppi::read reconstructs from the archive; start.raw/end.raw equal the original blocks; writing the same game twice gives identical bytes. Unknown entries (random names/sizes, written with the harness's tar writer) inserted at EVERY position before frames.arrow must not change the game read. Format-version gate: peppi.json rewritten with version triples on both sides of 2.0.0 (quick: boundary neighbourhood + random; thorough adds all (major,minor,0) and random triples): < 2.0.0 must be rejected, >= 2.0.0 accepted. distinct = workload classes x compression + entry-order shapes + insertion positions + version sides.".into()
+		"C01's replay space (versions/ports writable to .slpp) x compression. Every archive peppi::write produces is parsed by the harness's own tar reader. Oracle: bytes 0..10 are 'peppi.json'; entry names in order = peppi.json, metadata.json, start.json, start.raw, [end.json, end.raw iff the game has an end], [gecko_codes.raw iff gecko codes], frames.arrow last (required when rows > 0; with zero rows either choice is accepted); every *.json entry parses as JSON (own parser) and is byte-equal to serde's rendering of what peppi::read reconstructs from the archive; start.raw/end.raw equal the original blocks; writing the same game twice gives identical bytes. Unknown entries (random names/sizes, written with the harness's tar writer) inserted at EVERY position before frames.arrow must not change the game read. Format-version gate: peppi.json rewritten with version triples on both sides of 2.0.0 (quick: boundary neighbourhood + random; thorough adds all (major,minor,0) and random triples): < 2.0.0 must be rejected, >= 2.0.0 accepted, with the reader's skip_frames option off and on. distinct = workload classes x compression + entry-order shapes + insertion positions + version sides.".into()
 	}
 	fn assumptions(&self) -> Vec<String> {
 		vec!["versions 3.0-3.6 and empty port sets are skipped (peppi::write panics there: known finding under C02/C14)".into()]
@@ -250,13 +250,15 @@ impl C18 {
 			}
 			.into_bytes();
 			let a = tarx::write(&es);
-			out.evals += 1;
 			let below = v < (2, 0, 0);
-			match common::slpp_read(&a, false) {
-				Ok(_) if below => out.violate("old-format-version-accepted", format!("peppi format version {}.{}.{} < 2.0.0 was accepted", v.0, v.1, v.2), Some(&a)),
-				Ok(_) => out.count("current_or_newer_accepted", 1),
-				Err(f) if !below => out.violate(format!("supported-format-version-rejected;{}", f.sig()), format!("peppi format version {}.{}.{} >= 2.0.0 was rejected: {}", v.0, v.1, v.2, f.text()), Some(&a)),
-				Err(_) => out.count("old_rejected", 1),
+			for skip in [false, true] {
+				out.evals += 1;
+				match common::slpp_read(&a, skip) {
+					Ok(_) if below => out.violate(format!("old-format-version-accepted;skip_frames={}", skip), format!("peppi format version {}.{}.{} < 2.0.0 was accepted (skip_frames={})", v.0, v.1, v.2, skip), Some(&a)),
+					Ok(_) => out.count("current_or_newer_accepted", 1),
+					Err(f) if !below => out.violate(format!("supported-format-version-rejected;{}", f.sig()), format!("peppi format version {}.{}.{} >= 2.0.0 was rejected (skip_frames={}): {}", v.0, v.1, v.2, skip, f.text()), Some(&a)),
+					Err(_) => out.count("old_rejected", 1),
+				}
 			}
 			out.class(format!("format-version|{}|major={}", if below { "below-min" } else { "at-or-above-min" }, v.0.min(3)));
 		}
